@@ -188,10 +188,22 @@ func (e *engine) runTotality() {
 				emit(Case{Format: f, Opts: e.randOpts(r, f), Sched: sc, Input: s.B, Family: "fault", Name: s.Name})
 			}
 		}
+		// 5b. RDF/XML error paths, grammar-directed, text offsets on and off (deterministic, every run)
+		for _, d := range xmlErrorDocs() {
+			for _, off := range []bool{true, false} {
+				o := e.randOpts(r, "rdfxml")
+				o.Offsets = off
+				emit(Case{Format: "rdfxml", Opts: o, Sched: wholeSched, Input: d.B, Family: "xml-error-paths", Name: d.Name})
+			}
+		}
 		// 6. nesting and huge tokens; the big ones go to an expendable child process
 		for _, f := range allFormats {
 			for _, g := range nestGens[f] {
-				for _, d := range depths {
+				ds := depths
+				if g.Params != nil {
+					ds = g.Params
+				}
+				for _, d := range ds {
 					in := g.F(d)
 					for j := 0; j < 2; j++ {
 						c := Case{Format: f, Opts: e.randOpts(r, f), Sched: wholeSched, Input: in, Family: "nest", Name: fmt.Sprintf("%s@%d", g.Name, d)}
